@@ -479,16 +479,6 @@ def holdsC08 (h : History) (tr : ImplTrace) : Verdict := Id.run do
     idx := idx + 1
   return none
 
-/-- how many nodes one template instruction creates (`none`: not statically known) -/
-def instrNodeCount : Instr → Option Nat
-  | .cutoff _ _ | .publish _ _ => some 0
-  | .bind _ _ => some 2
-  | .memoCall _ _ => none
-  | .mapOp (.merge ..) => some 5
-  | .mapOp _ => some 3
-  | .perKey .. => some 4
-  | _ => some 1
-
 /-- C03: once the left-hand side of a bind has changed, no function of a node created by the previous
 run of its closure (nor of closures nested in that run) is invoked again — in the rest of that stabilise
 or ever after — and those nodes are invalid.  Generations are reconstructed from the trace: closure runs
@@ -1038,6 +1028,18 @@ def opInput (sh : Shadow) (op : MapOpK) : Option (List (Int × Int) × List (Int
   | .fm _ x | .fold _ _ _ x | .part _ x => (varValue sh x).map fun v => (asMap v, [])
   | .merge _ x y => do pure (asMap (← varValue sh x), asMap (← varValue sh y))
 
+/-- the per-key operators of a history, by the top-level ordinal of their output node -/
+def perKeyOps (h : History) : List (Nat × (Option CutoffK × Nat × Opnd)) := Id.run do
+  let mut k := 0
+  let mut out : List (Nat × (Option CutoffK × Nat × Opnd)) := []
+  for a in h.actions do
+    match a with
+    | .create (.cutoff _ _) | .create (.publish _ _) => pure ()
+    | .create (.perKey c f x) => out := out ++ [(k, (c, f, x))]; k := k + 1
+    | .create _ => k := k + 1
+    | _ => pure ()
+  return out
+
 /-- C17: in a stabilise, an operator's user functions are called only for keys whose presence or value
 differs between the input the operator last saw and the current one (for merge: in either input), at
 most once per key and role — except when it (re)initialises or its input is emptied. -/
@@ -1046,6 +1048,9 @@ def holdsC17 (h : History) (tr : ImplTrace) : Verdict := Id.run do
   let mut sh := Shadow.init h
   -- per operator (by output ordinal): the input it last ran on
   let mut seen : List (Nat × (List (Int × Int) × List (Int × Int))) := []
+  let pkOps := perKeyOps h
+  let mut seenPk : List (Nat × List (Int × Int)) := []
+  let mut credit : Nat := 0
   let mut idx := 0
   for a in h.actions do
     let rec_ := tr[idx]?.getD {}
@@ -1086,21 +1091,40 @@ def holdsC17 (h : History) (tr : ImplTrace) : Verdict := Id.run do
             | none => pure ()
             if ran then seen := (k, cur) :: seen.filter (·.1 != k)
           | _, _ => pure ()
+        -- per-key operators (`incr_mapi_` …): a per-key input node (an expert node without dependencies) is
+        -- recomputed only for a key whose presence or value changed since its operator last ran; every run of an
+        -- operator's change detector grants one recompute per differing key
+        for (k, (_, _, x)) in pkOps do
+          match sh.topAbs[k]?, varValue sh x with
+          | some outAbs, some cur =>
+            let resNode := ((rec_.snapOf outAbs).map (·.ch.headD 0)).getD 0
+            let lcNode := ((rec_.snapOf resNode).map (·.ch.headD 0)).getD 0
+            let ran := match rec_.snapOf lcNode with
+              | some sn => sn.r + 1 == rec_.statInt "num"
+              | none => false
+            if ran then
+              let prev := (seenPk.lookup k).getD []
+              let keys := ((asMap cur).map (·.1) ++ prev.map (·.1)).eraseDups
+              let diff := (keys.filter fun key =>
+                IncrVerif.AMap.lookup prev key != IncrVerif.AMap.lookup (asMap cur) key).length
+              credit := credit + diff
+              seenPk := (k, asMap cur) :: seenPk.filter (·.1 != k)
+          | _, _ => pure ()
+        if !pkOps.isEmpty then
+          -- (result node, change detector) of every per-key operator; a per-key input node is an expert node
+          -- whose only dependency is a change detector and which is not that operator's result
+          let rl := pkOps.filterMap fun (k, _) => (sh.topAbs[k]?).map fun outAbs =>
+            let resNode := ((rec_.snapOf outAbs).map (·.ch.headD 0)).getD 0
+            (resNode, ((rec_.snapOf resNode).map (·.ch.headD 0)).getD 0)
+          let recomputed := (rec_.snaps.filter fun sn =>
+            sn.kind == "Expert" && sn.ch.length == 1 && rl.any (fun (r, l) => sn.ch == [l] && sn.id != r)
+              && sn.r + 1 == rec_.statInt "num").length
+          if recomputed > credit then
+            return some s!"action {idx}: {recomputed} per-key nodes were recomputed but only {credit} keys changed since their operators last ran"
+          credit := credit - recomputed
     | _ => pure ()
     idx := idx + 1
   return none
-
-/-- the per-key operators of a history, by the top-level ordinal of their output node -/
-def perKeyOps (h : History) : List (Nat × (Option CutoffK × Nat × Opnd)) := Id.run do
-  let mut k := 0
-  let mut out : List (Nat × (Option CutoffK × Nat × Opnd)) := []
-  for a in h.actions do
-    match a with
-    | .create (.cutoff _ _) | .create (.publish _ _) => pure ()
-    | .create (.perKey c f x) => out := out ++ [(k, (c, f, x))]; k := k + 1
-    | .create _ => k := k + 1
-    | _ => pure ()
-  return out
 
 /-- C16: after every stabilise the output of a per-key operator is the map obtained by applying the
 user's per-key computation (evaluated from scratch by the reference semantics, with the key's value as
@@ -1176,6 +1200,16 @@ def holdsC12 (h : History) (tr : ImplTrace) : Verdict := Id.run do
     | .dropObs o | .disallow o =>
       if !(sh.inUse o) && !(obsGone.contains o) then obsEnded := o :: obsEnded
     | .stabilise =>
+      -- closures that ran may have dropped the `Var` handle they own (`dropvar` effect)
+      for (f, _, _, _) in invs rec_ do
+        if f.startsWith "f" then
+          match (f.drop 1).toString.toNat? with
+          | some fi =>
+            for e in ((h.defs.fns.lookup fi).map (·.effects)).getD [] do
+              match e with
+              | .dropVar v => if !(varDropped.contains v) then varDropped := v :: varDropped
+              | _ => pure ()
+          | none => pure ()
       if rec_.api == "ok" then
         varBroken := varDropped
         obsGone := obsGone ++ obsEnded
@@ -1289,7 +1323,9 @@ def evalProp (prop : String) (h : History) (tr : ImplTrace) : Verdict :=
   match prop with
   | "WF" => match wellFormed h with
     | some r => some r
-    | none => if hasScopedVar h then wellFormedDyn h else none
+    | none =>
+      let hasDrop := h.defs.fns.any fun (_, d) => d.effects.any fun e => match e with | .dropVar _ => true | _ => false
+      if hasScopedVar h || hasDrop then wellFormedDyn h else none
   | "C01" => holdsC01 h tr
   | "C02" => holdsC02 h tr
   | "C03" => holdsC03 h tr
